@@ -31,7 +31,7 @@ pub mod softlock {
 }
 
 /// C27/C28/C31/C37: credential values with chosen secrets (the crate's own constructors are
-/// `pub(crate)`), always with the minimum crypto policy so hashing stays cheap.
+/// `pub(crate)`), always with the cheapest (test) crypto policy so hashing stays cheap.
 pub mod cred {
     use crate::credential::totp::Totp;
     use crate::credential::{BackupCodes, Credential};
@@ -40,14 +40,14 @@ pub mod cred {
     use time::OffsetDateTime;
 
     pub fn password_only(cleartext: &str, ts: OffsetDateTime) -> Result<Credential, OperationError> {
-        Credential::new_password_only(&CryptoPolicy::minimum(), cleartext, ts)
+        Credential::new_password_only(&CryptoPolicy::danger_test_minimum(), cleartext, ts)
     }
 
     pub fn generated_password_only(
         cleartext: &str,
         ts: OffsetDateTime,
     ) -> Result<Credential, OperationError> {
-        Credential::new_generatedpassword_only(&CryptoPolicy::minimum(), cleartext, ts)
+        Credential::new_generatedpassword_only(&CryptoPolicy::danger_test_minimum(), cleartext, ts)
     }
 
     pub fn append_totp(c: &Credential, label: &str, totp: Totp, ts: OffsetDateTime) -> Credential {
